@@ -18,7 +18,10 @@ m("C02","push-append-before-check","polygon.go","	if lr.layout != g.layout {\n		
 m("C02","mls-push-no-check","multilinestring.go","	if ls.layout != g.layout {\n		return ErrLayoutMismatch{Got: ls.layout, Want: g.layout}\n	}\n","","push-guarded-atomic/(*geom.MultiLineString).Push")
 m("C02","reverse-also-ends","flat.go","func (g *geom2) Reverse() {\n	reverse2(g.flatCoords, 0, g.ends, g.stride)","func (g *geom2) Reverse() {\n	for i, j := 0, len(g.ends)-1; i < j; i, j = i+1, j-1 {\n		g.ends[i], g.ends[j] = g.ends[j], g.ends[i]\n	}\n	reverse2(g.flatCoords, 0, g.ends, g.stride)","reverse-writes-ordinates-only")
 # ---- C03
-m("C03","swap-xyz-xym-codes","encoding/wkb/wkb.go","	wkbXYZID  = 1000\n	wkbXYMID  = 2000","	wkbXYZID  = 2000\n	wkbXYMID  = 1000","dimension-table/encoding/wkb")
+m("C03","swap-xyz-xym-codes","encoding/wkb/wkb.go","	wkbXYZID  = 1000\n	wkbXYMID  = 2000","	wkbXYZID  = 2000\n	wkbXYMID  = 1000","type-word-evaluated/wkb.")
+m("C03","reader-type-mod-100","encoding/wkb/wkb.go","	switch t % 1000 {","	switch t % 100 {","type-word-evaluated/wkb.Read/")
+m("C03","writer-accepts-any-layout","encoding/ewkb/ewkb.go","	case geom.XYZM:\n		ewkbGeometryType |= ewkbZ | ewkbM\n	default:\n		return geom.ErrUnsupportedLayout(g.Layout())\n	}","	default:\n		ewkbGeometryType |= ewkbZ | ewkbM\n	}","type-word-evaluated/ewkb.Write/")
+m("C03","ewkb-reader-ignores-unknown-bits","encoding/ewkb/ewkb.go","	switch t &^ (ewkbZ | ewkbM | ewkbSRID) {","	switch t & 0xff {","type-word-evaluated/ewkb.Read/")
 m("C03","ewkb-multipoint-no-srid","encoding/ewkb/ewkb.go","		mp := geom.NewMultiPoint(layout).SetSRID(int(srid))","		mp := geom.NewMultiPoint(layout)","srid-mustpass/encoding/ewkb.Read")
 m("C03","drop-writeuint32-error","encoding/wkbcommon/wkbcommon.go","	if err := WriteUInt32(w, byteOrder, uint32(len(ends))); err != nil {\n		return err\n	}","	_ = WriteUInt32(w, byteOrder, uint32(len(ends)))","writer-errors/encoding/wkbcommon.WriteFlatCoords2")
 m("C03","readuint32-via-read","encoding/wkbcommon/binary.go","	var buf [4]byte\n	if _, err := io.ReadFull(r, buf[:]); err != nil {","	var buf [4]byte\n	if _, err := r.Read(buf[:]); err != nil {","reader-discipline/encoding/wkbcommon.ReadUInt32")
